@@ -29,11 +29,16 @@ E_STREAM, E_HEADER = 100, 101
 
 def install_reader_models(reg):
     from .models_io import make_ext_model
-    reg.models["pynmeagps.nmeareader.NMEAReader.parse"] = make_ext_model("nmea", ["msgmode", "validate"])
-    reg.models["pyrtcm.rtcmreader.RTCMReader.parse"] = make_ext_model("rtcm", ["labelmsm", "validate"])
+    import pynmeagps
+    import pyrtcm
+    from .native import resolve
+    reg.models["pynmeagps.nmeareader.NMEAReader.parse"] = make_ext_model("nmea", ["msgmode", "validate"],
+                                                                        pynmeagps.NMEAReader.parse)
+    reg.models["pyrtcm.rtcmreader.RTCMReader.parse"] = make_ext_model("rtcm", ["labelmsm", "validate"],
+                                                                     pyrtcm.RTCMReader.parse)
     # UBXReader.parse inside the reader: its proved contract (raises only UBX* errors, modifies nothing) makes it a
     # function of its arguments; the reader proofs use exactly that and nothing about the message contents
-    reg.models[R + "parse"] = make_ext_model("ubx", ["msgmode", "parsebitfield", "validate"])
+    reg.models[R + "parse"] = make_ext_model("ubx", ["msgmode", "parsebitfield", "validate"], resolve(R + "parse"))
 
 
 def err_code(exc: ExcVal):
